@@ -15,7 +15,14 @@ ISO/IEC 13818-1 2.4.3.7 / 2.4.3.5 (`readBits`) and of the independent encoder
 namespace Ts.Props.C15
 open Ts Ts.Spec Ts.Spec.TimeSpec
 
-/-! ### ties to the constants regenerated from `/repo/src/pes.rs` and `/repo/src/packet.rs` -/
+/-! ### ties to the constants regenerated from `/repo/src/pes.rs` and `/repo/src/packet.rs`
+
+The first four are PINS (`Gen.x = number`, no model definition in the statement; second review).
+They are kept because the `*_gen` theorems below rewrite with them.  The statements that put the
+regenerated constants into the model's own equations are `tie_model_max_gen` (the model constant
+`Time.MAX`), `ts_range_gen`, `fromU64_refuses_iff_gen`, `crefFromSlice_range`,
+`crefFromParts_refuses_iff_gen` below, and `Ts.Props.Ties.tie_cref_from_parts`,
+`tie_ts_max_wrap`, `tie_from_u64_accepts_to_max`. -/
 theorem tie_ts_from_u64_bound : Ts.Gen.tsFromU64Bound = 2^33 := by decide
 theorem tie_ts_max : Ts.Gen.tsMax = 2^33 - 1 := by decide
 theorem tie_cref_base_bound : Ts.Gen.crefBaseBound = 2^33 := by decide
